@@ -4,7 +4,9 @@ import (
 	"bufio"
 	"fmt"
 	"io"
+	"io/ioutil"
 	"math/big"
+	"os"
 	"os/exec"
 	"strings"
 	"time"
@@ -55,6 +57,12 @@ func StartProc(name string, timeoutMs int) (*Proc, error) {
 		return nil, err
 	}
 	p := &Proc{Name: name, cmd: cmd, in: in, out: bufio.NewReaderSize(out, 1<<16)}
+	if d := os.Getenv("GOSYM_DUMP"); d != "" {
+		f, err := os.Create(fmt.Sprintf("%s/%s_%d.smt2", d, name, cmd.Process.Pid))
+		if err == nil {
+			p.Log = f
+		}
+	}
 	if name == "cvc5" {
 		p.Send("(set-logic ALL)")
 	}
@@ -306,18 +314,26 @@ type Session struct {
 	Mirrors  []*Proc
 	defined  map[int]bool
 	declared map[string]bool
+	hist     []string // path-level commands (for one-shot fallback)
+	FastMs   int      // incremental attempt budget
+	SlowMs   int      // one-shot fallback budget
+	OneShots int
+	OneShotBy map[string]int
 	Queries  int
 	SolverNs int64
 	Errors   []string
 }
 
 func NewSession(c *Ctx, p *Proc, mirrors []*Proc) *Session {
-	s := &Session{C: c, P: p, Mirrors: mirrors, defined: map[int]bool{}, declared: map[string]bool{}}
+	s := &Session{C: c, P: p, Mirrors: mirrors, defined: map[int]bool{}, declared: map[string]bool{}, OneShotBy: map[string]int{}}
 	s.all("(push 1)")
 	return s
 }
 
 func (s *Session) all(cmd string) {
+	if !strings.HasPrefix(cmd, "(push") && !strings.HasPrefix(cmd, "(pop") {
+		s.hist = append(s.hist, cmd)
+	}
 	s.P.Send(cmd)
 	for _, m := range s.Mirrors {
 		m.Send(cmd)
@@ -423,7 +439,153 @@ func (s *Session) CheckWith(t *Term) (Result, string) {
 		s.Errors = append(s.Errors, errs...)
 		return Unknown, strings.Join(errs, "; ")
 	}
+	if r == Unknown {
+		save := s.SlowMs
+		if s.SlowMs <= 0 || s.SlowMs > 4000 {
+			s.SlowMs = 4000 // feasibility checks get a small portfolio budget
+		}
+		r, _, why = s.oneShot(t, false)
+		s.SlowMs = save
+	}
 	return r, why
+}
+
+// oneShot re-runs pathcond ∧ t in a fresh non-incremental z3 (full tactic pipeline).
+func (s *Session) oneShot(t *Term, wantModel bool) (Result, Model, string) {
+	ms := s.SlowMs
+	if ms <= 0 {
+		ms = 20000
+	}
+	s.OneShots++
+	var sb strings.Builder
+	for _, h := range s.hist {
+		sb.WriteString(h)
+		sb.WriteByte('\n')
+	}
+	fmt.Fprintf(&sb, "(assert %s)\n(check-sat)\n", t.Ref())
+	var vars []*Term
+	if wantModel {
+		for _, v := range s.C.Vars {
+			if s.defined[v.ID] {
+				vars = append(vars, v)
+			}
+		}
+		if len(vars) > 0 {
+			sb.WriteString("(get-value (")
+			for _, v := range vars {
+				sb.WriteString(v.Ref())
+				sb.WriteByte(' ')
+			}
+			sb.WriteString("))\n")
+		}
+	}
+	t0 := time.Now()
+	script := sb.String()
+	type ans struct {
+		solver string
+		r      Result
+		m      Model
+		why    string
+	}
+	parse := func(solver, txt string) ans {
+		txt = strings.TrimSpace(txt)
+		if strings.Contains(txt, "(error") {
+			return ans{solver, Unknown, nil, solver + ": " + trunc(txt, 300)}
+		}
+		switch {
+		case strings.HasPrefix(txt, "unsat"):
+			return ans{solver, Unsat, nil, ""}
+		case strings.HasPrefix(txt, "sat"):
+			if !wantModel {
+				return ans{solver, Sat, nil, ""}
+			}
+			m := Model{}
+			rest := strings.TrimSpace(strings.TrimPrefix(txt, "sat"))
+			if len(vars) > 0 {
+				toks := tokenize(rest)
+				pos := 0
+				sx, err := parseSexp(toks, &pos)
+				if err != nil {
+					return ans{solver, Unknown, nil, "model parse: " + err.Error()}
+				}
+				for _, pair := range sx.list {
+					if len(pair.list) == 2 {
+						if v, ok := sexpInt(pair.list[1]); ok {
+							m[strings.Trim(pair.list[0].atom, "|")] = v
+						}
+					}
+				}
+			}
+			s.fillDefaults(m)
+			return ans{solver, Sat, m, ""}
+		}
+		return ans{solver, Unknown, nil, solver + ": " + trunc(txt, 100)}
+	}
+	secs := fmt.Sprintf("%d", (ms+999)/1000)
+	cmds := []*exec.Cmd{
+		exec.Command("cvc5", "--lang=smt2", "--produce-models", "-q", "--tlimit="+fmt.Sprintf("%d", ms)),
+		exec.Command("z3-new", "-in", "-T:"+secs),
+		exec.Command("z3", "-in", "-T:"+secs),
+	}
+	names := []string{"cvc5", "z3-new", "z3"}
+	ch := make(chan ans, len(cmds))
+	for j, cmd := range cmds {
+		in := script
+		if names[j] == "cvc5" {
+			in = "(set-logic ALL)\n" + script
+		}
+		cmd.Stdin = strings.NewReader(in)
+		go func(name string, cmd *exec.Cmd) {
+			out, _ := cmd.CombinedOutput()
+			ch <- parse(name, string(out))
+		}(names[j], cmd)
+	}
+	var final ans
+	final.r = Unknown
+	var whys []string
+	for range cmds {
+		a := <-ch
+		if a.r != Unknown {
+			final = a
+			break
+		}
+		whys = append(whys, a.why)
+	}
+	for _, cmd := range cmds {
+		if cmd.Process != nil {
+			cmd.Process.Kill()
+		}
+	}
+	s.SolverNs += time.Since(t0).Nanoseconds()
+	if final.r == Unknown {
+		if d := os.Getenv("GOSYM_DUMP"); d != "" {
+			ioutil.WriteFile(fmt.Sprintf("%s/hard_%d_%d.smt2", d, os.Getpid(), time.Now().UnixNano()), []byte(script), 0o644)
+		}
+		return Unknown, nil, "portfolio: " + strings.Join(whys, " | ")
+	}
+	s.OneShotBy[final.solver]++
+	return final.r, final.m, ""
+}
+
+func trunc(s string, n int) string {
+	if len(s) > n {
+		return s[:n]
+	}
+	return s
+}
+
+func (s *Session) fillDefaults(m Model) {
+	for _, v := range s.C.Vars {
+		if _, ok := m[v.Name]; !ok {
+			d := big.NewInt(0)
+			if v.Lo != nil && v.Lo.Sign() > 0 {
+				d = v.Lo
+			} else if v.Hi != nil && v.Hi.Sign() < 0 {
+				d = v.Hi
+			}
+			m[v.Name] = d
+		}
+	}
 }
 
 // CheckModel is CheckWith that also returns a model on sat.
@@ -471,6 +633,9 @@ func (s *Session) CheckModel(t *Term) (Result, Model, string) {
 	if errs := s.P.Sync(); len(errs) > 0 {
 		s.Errors = append(s.Errors, errs...)
 		return Unknown, nil, strings.Join(errs, "; ")
+	}
+	if r == Unknown {
+		r, m, why = s.oneShot(t, true)
 	}
 	return r, m, why
 }
